@@ -2,7 +2,7 @@
    field with an exponential family, so the generic theorems apply to it: on every generated
    case the model output checked by corr_* is provably the specification checked by holds_*. *)
 From Coq Require Import List Bool ZArith QArith Qcanon Lia Lqa Field.
-From AL Require Import Base.CaseLib C12.Model C12.Spec C12.Check C12.Proofs.
+From AL Require Import Base.CaseLib C12.Model C12.Spec C12.Check C12.Proofs C12.ProofsT.
 Import ListNotations.
 
 Lemma CQ_ring_eq (x y : CQ) : fst x = fst y -> snd x = snd y -> x = y.
@@ -159,3 +159,31 @@ Proof. exact (dft_eq_spec CQ_ops CQ_cx CQ_field blk freqs norm). Qed.
 
 Theorem CQ_corr_dft_iff_holds_dft c : corr_dft c = holds_dft c.
 Proof. unfold corr_dft, holds_dft. rewrite CQ_dft_eq_spec. reflexivity. Qed.
+
+(* ---- nested filter lists on the executable instance ---- *)
+Lemma tree_spec_transfer {T W W'} (F : cops T) (cx : Z -> W -> T) (g : W' -> W) t w :
+  tree_spec F (fun n w => cx n (g w)) t w = tree_spec F cx t (g w).
+Proof.
+  induction t as [b a|l IH|l IH] using ftree_ind2.
+  - cbn [tree_spec]. rewrite (fr_spec_transfer F cx g). reflexivity.
+  - cbn [tree_spec]. rewrite (map_Forall_eq _ _ l IH). reflexivity.
+  - cbn [tree_spec]. rewrite (map_Forall_eq _ _ l IH). reflexivity.
+Qed.
+Lemma tree_fr_transfer {T W W'} (F : cops T) (cx : Z -> W -> T) (g : W' -> W) t w :
+  tree_fr F (fun n w => cx n (g w)) t w = tree_fr F cx t (g w).
+Proof.
+  induction t as [b a|l IH|l IH] using ftree_ind2.
+  - reflexivity.
+  - cbn [tree_fr]. rewrite (map_Forall_eq _ _ l IH). reflexivity.
+  - cbn [tree_fr]. rewrite (map_Forall_eq _ _ l IH). reflexivity.
+Qed.
+
+Theorem CQ_tree_fr_eq_spec t (u : CQ) : u <> c0 CQ_ops ->
+  tree_fr CQ_ops CQ_cx t u = tree_spec CQ_ops CQ_cx t u.
+Proof.
+  intro Hu.
+  pose proof (tree_fr_eq_spec CQ_ops CQ_cx' CQ_field CQ_ceqb_spec CQ_cx'_0 CQ_cx'_add t (exist _ u Hu)) as H.
+  transitivity (tree_fr CQ_ops CQ_cx' t (exist _ u Hu)).
+  - symmetry. exact (tree_fr_transfer CQ_ops CQ_cx (@proj1_sig _ _) t (exist _ u Hu)).
+  - rewrite H. exact (tree_spec_transfer CQ_ops CQ_cx (@proj1_sig _ _) t (exist _ u Hu)).
+Qed.
